@@ -346,6 +346,7 @@ enum Kind {
 	CrossFork,
 	Hf3,
 	PoolHeaderFork,
+	PoolKept,
 }
 
 #[derive(Clone, Copy, Debug, PartialEq)]
@@ -506,6 +507,11 @@ fn gen_specs(seed: u64, n_extra: usize, san: bool) -> (Vec<Spec>, usize) {
 		sp.fat = fat;
 		v.push(sp);
 	}
+	for _ in 0..3 {
+		let mut sp = mk(Kind::PoolKept, RuleP::Mat { b_only: false }, &mut p);
+		sp.fat = Fat::None;
+		v.push(sp);
+	}
 	{
 		// genesis coinbase: exercises the `height < maturity` shortcut (spend at height 2 / 3)
 		let mut sp = mk(Kind::Single, RuleP::Mat { b_only: true }, &mut p);
@@ -540,12 +546,13 @@ fn gen_specs(seed: u64, n_extra: usize, san: bool) -> (Vec<Spec>, usize) {
 			13 | 14 | 15 => Kind::Rewound,
 			16 => Kind::CrossFork,
 			17 => Kind::Hf3,
+			18 => Kind::PoolKept,
 			_ => Kind::PoolHeaderFork,
 		};
 		let rule = match kind {
 			Kind::CrossFork => RuleP::Nrd { rel: *p.pick(&[1u64, 2, 3, 5]) },
 			Kind::Hf3 => RuleP::Nrd { rel: 1 },
-			Kind::PoolHeaderFork => RuleP::Mat { b_only: false },
+			Kind::PoolHeaderFork | Kind::PoolKept => RuleP::Mat { b_only: false },
 			_ => match p.below(3) {
 				0 => RuleP::Mat { b_only: p.chance(1, 4) },
 				1 => RuleP::Lock,
@@ -1386,6 +1393,139 @@ impl<'a> Sim<'a> {
 		self.run.count("pool_admission_decisions", 1);
 	}
 
+	/// A pool that is kept while the chain reorganises onto a shorter fork: transactions sitting exactly on their
+	/// thresholds enter the stempool at next height t+3, the head falls to height t+1, and every one of them is
+	/// submitted as a stem transaction again (which fluffs it). The decision is the rule at the next height of the
+	/// fork now being extended.
+	fn pool_kept(&mut self, fork_point: Hash, t: u64) {
+		const CLASS: &str = "pool_stem_again_after_shorter_reorg";
+		let head_hdr = match self.chain.head_header() {
+			Ok(h) => h,
+			Err(e) => return self.abort(&format!("head_header: {:?}", e)),
+		};
+		if head_hdr.hash() != self.head || head_hdr.height != t + MATURITY - 1 {
+			return self.abort("pool_kept: chain head differs from expected head");
+		}
+		let next_b = t + 2;
+		let st = self.ledger.state_at(&fork_point);
+		let mut used: Vec<Commitment> = vec![];
+		let mut items: Vec<(&'static str, i32, Transaction, String)> = vec![];
+		for off in [-1i32, 0, 1] {
+			let c = next_b as i64 - MATURITY as i64 - off as i64;
+			let coin = match self.ancestor_at(&fork_point, c as u64).and_then(|bh| self.cb.get(&bh).cloned()) {
+				Some(c) if st.utxo.contains_key(&c.commit) => c,
+				_ => continue,
+			};
+			used.push(coin.commit);
+			let tx = self.tx_one(&coin, KernelFeatures::Plain { fee: fee_fields(FEE) }, FEE, false);
+			items.push(("maturity", off, tx, format!("spend coinbase created at {}", c)));
+		}
+		for off in [-1i32, 0, 1] {
+			let lock = (next_b as i64 - off as i64) as u64;
+			let coin = match self.pick_coin(&fork_point, next_b, &used) {
+				Some(c) => c,
+				None => continue,
+			};
+			used.push(coin.commit);
+			let tx = self.tx_one(&coin, height_locked(FEE, lock), FEE, false);
+			items.push(("lock", off, tx, format!("lock_height {}", lock)));
+		}
+		let adapter = Arc::new(PoolChainAdapter { chain: self.chain.arc() });
+		let mut pool = TransactionPool::new(
+			PoolConfig {
+				accept_fee_base: global::get_accept_fee_base(),
+				reorg_cache_period: 30,
+				max_pool_size: 50,
+				max_stempool_size: 50,
+				mineable_max_weight: 10_000,
+			},
+			adapter,
+			Arc::new(NoopPoolAdapter {}),
+		);
+		for (rule, _, tx, desc) in &items {
+			let res = pool.add_to_pool(TxSource::Broadcast, tx.clone(), true, &head_hdr);
+			self.script.push(format!("pool(kept) next={} stem tx=[{}] ({}) observed={:?}", head_hdr.height + 1, desc, rule, res));
+			if res.is_err() || !pool.stempool.contains_tx(tx) {
+				// admissible at this height by the rule (the plain pool classes decide that boundary)
+				self.run.count("pool_kept.setup_refused", 1);
+				return self.abort("pool_kept: a stem transaction on its threshold was not taken into the stempool");
+			}
+		}
+		// one heavier block on the fork point: the head falls by MATURITY - 2 blocks
+		let mut b = Branch { tip: fork_point, policy: Policy::Firing, class: "fork", fat: 0 };
+		let before = self.head;
+		if !self.filler(&mut b) || self.head != b.tip || self.head == before {
+			return self.abort("pool_kept: the shorter fork did not become the head");
+		}
+		let as_the_node_does = |pool: &mut TransactionPool<PoolChainAdapter, NoopPoolAdapter>, blk: &Block, reorg: bool| {
+			let _ = pool.reconcile_block(blk);
+			if reorg {
+				let _ = pool.reconcile_reorg_cache(&blk.header);
+			}
+		};
+		let blk = self.ledger.get(&b.tip).block.clone();
+		as_the_node_does(&mut pool, &blk, true);
+		self.run.count("pool_kept.reorgs_onto_a_shorter_fork", 1);
+		for round in 0..2 {
+			let head_hdr = match self.chain.head_header() {
+				Ok(h) => h,
+				Err(e) => return self.abort(&format!("head_header: {:?}", e)),
+			};
+			let next = head_hdr.height + 1;
+			let st = self.ledger.state_at(&self.head);
+			for (rule, off0, tx, desc) in &items {
+				let off = off0 + round;
+				let held = pool.stempool.contains_tx(tx);
+				if pool.txpool.contains_tx(tx) {
+					continue;
+				}
+				let mut pb = Block::default();
+				pb.header.height = next;
+				pb.body = tx.body.clone();
+				let oracle = map_ref(st.check_block(&pb));
+				if let Err(k) = &oracle {
+					if k.starts_with("HARNESS") {
+						return self.abort(&format!("harness: unintended invalid pool tx: {}", k));
+					}
+				}
+				let res = pool.add_to_pool(TxSource::Broadcast, tx.clone(), true, &head_hdr);
+				let in_txpool = pool.txpool.contains_tx(tx);
+				// handing the transaction to the miner is the admission that counts
+				let obs = if in_txpool { Obs::Accept } else { classify_pool(&res) };
+				let detail = json!({
+					"pool": "kept through a reorganisation onto a shorter fork",
+					"head_height": head_hdr.height,
+					"next_height": next,
+					"held_in_stempool_before": held,
+					"in_txpool_after": in_txpool,
+					"tx": desc,
+					"oracle": format!("{:?}", oracle),
+					"observed": format!("{:?}", res),
+				});
+				self.script.push(format!(
+					"pool(kept) next={} {}/{}/{} stem tx again=[{}] held_in_stempool={} oracle={:?} observed={:?} in_txpool={}",
+					next, rule, CLASS, off_str(off), desc, held, oracle, obs, in_txpool
+				));
+				self.record(Label { rule, class: CLASS, off }, &oracle, &obs, detail);
+				self.run.count("pool_admission_decisions", 1);
+				if held {
+					self.run.count("pool_kept.decisions_on_a_transaction_held_in_the_stempool", 1);
+				}
+				if !self.ok() {
+					return;
+				}
+			}
+			if round == 0 {
+				// the fork grows by one block: what was one block early is on its threshold now
+				if !self.filler(&mut b) || self.head != b.tip {
+					return self.abort("pool_kept: the fork could not be extended");
+				}
+				let blk = self.ledger.get(&b.tip).block.clone();
+				as_the_node_does(&mut pool, &blk, false);
+			}
+		}
+	}
+
 	fn pool_maturity(&mut self, class: &'static str) {
 		if !self.ok() {
 			return;
@@ -1689,6 +1829,20 @@ impl<'a> Sim<'a> {
 					self.run_events(&mut br, &evs);
 				}
 				self.pool_checks();
+			}
+			Kind::PoolKept => {
+				// one pool instance lives through a reorganisation onto a heavier but SHORTER fork; stem
+				// transactions it holds are handed to it a second time afterwards (a cycle in the stem path)
+				let t = sp.range(6, 9);
+				let mut trunk = Branch { tip: gen, policy: Policy::Main, class: "single", fat: 0 };
+				self.advance_to(&mut trunk, t);
+				let fork_point = trunk.tip;
+				let mut a = Branch { tip: fork_point, policy: Policy::Main, class: "single", fat: 0 };
+				self.advance_to(&mut a, t + MATURITY - 1);
+				if !self.ok() {
+					return;
+				}
+				self.pool_kept(fork_point, t);
 			}
 			Kind::PoolHeaderFork => {
 				// body chain A, header chain B (headers only, more work), different output counts
@@ -2154,6 +2308,20 @@ fn main() {
 			"pool decisions with the header chain on a competing fork",
 			run.counter("pool_header_fork_setups"),
 			2,
+		);
+		for rule in ["maturity", "lock"] {
+			for off in ["-1", "0", "+1"] {
+				run.require(
+					&format!("{}: stem transaction handed over again after a reorg onto a shorter fork, offset {}", rule, off),
+					run.counter(&format!("obs:{}:pool_stem_again_after_shorter_reorg:{}", rule, off)),
+					1,
+				);
+			}
+		}
+		run.require(
+			"decisions on a transaction the stempool still held after the shorter reorg",
+			run.counter("pool_kept.decisions_on_a_transaction_held_in_the_stempool"),
+			4,
 		);
 		run.require("scenarios run", run.counter("scenarios_run"), core as u64);
 		run.require("repeated NRD kernel (4-6 occurrences): scenarios agreeing with the reference rule", run.counter("nrd_repeated.scenarios_agreeing"), run.tier.pick(40, 160));
